@@ -4,7 +4,7 @@ From Coq Require Import ZArith List Bool String.
 From TV Require Import Base.Prelude Gen.C10_Tables Model.C10_RsaMath Model.C10_RsaSig Model.C10_Dh Model.C10_Dsa
      Model.C10_SignSites Spec.C10_DigestInfo
      Proofs.C10_BytesP Proofs.C10_MathP Proofs.C10_Pkcs1P Proofs.C10_PssP Proofs.C10_DhP
-     Proofs.C10_SitesP Proofs.C10_TieP Proofs.C10_PssRsaP Proofs.C10_DsaP Toy.ToyMac.
+     Proofs.C10_SitesP Proofs.C10_TieP Proofs.C10_PssRsaP Proofs.C10_DsaP Proofs.C10_DispatchP Toy.ToyMac.
 Import ListNotations.
 Open Scope Z_scope.
 
@@ -40,6 +40,26 @@ Theorem pkcs1_rejects_everything_else :
      rsa_verify hash hLen false n e sig data PadPkcs1 hashAlg sLen <> Ok true) /\
     rsa_verify hash hLen true n e sig data PadPkcs1 hashAlg sLen = Ok false.
 Proof. exact pkcs1_rejects_all. Qed.
+
+(* An RSASSA-PSS-only key (key_type "rsa-pss") never accepts a PKCS#1 v1.5 signature, through any
+   public entry point and for any spelling of the scheme name: verify() matches names exactly and its
+   key-type guard comes first; hashAndVerify() lower-cases the name BEFORE calling verify(), so the
+   documented/default spelling 'PKCS1' is guarded too; SignedObject.verify_signature uses that default.
+   The only name under which such a key can accept anything is "pss" (after normalisation). *)
+Theorem pss_only_key_rejects_pkcs1 :
+  forall (hash : list Z -> list Z) hLen n e sig data msg hashAlg hAlg sLen,
+    rsa_verify_named hash hLen true n e sig data "pkcs1" hashAlg sLen = Ok false /\
+    (forall padname, rsa_verify_named hash hLen true n e sig data padname hashAlg sLen = Ok true -> padname = "pss"%string) /\
+    (forall scheme, lower scheme = "pkcs1"%string ->
+                    rsa_hashAndVerify hash hLen true n e sig msg scheme hAlg sLen = Ok false) /\
+    (forall scheme, rsa_hashAndVerify hash hLen true n e sig msg scheme hAlg sLen = Ok true -> lower scheme = "pss"%string) /\
+    signed_object_verify hash hLen true n e sig msg hAlg = Ok false.
+Proof. exact pss_only_key_rejects_pkcs1_all. Qed.
+
+Example scheme_name_spellings :
+  map lower ["pkcs1"; "PKCS1"; "Pkcs1"; "pKcS1"; "pss"; "PSS"; "Pss"]%string
+  = ["pkcs1"; "pkcs1"; "pkcs1"; "pkcs1"; "pss"; "pss"; "pss"]%string.
+Proof. exact spellings. Qed.
 
 (* the table of DigestInfo prefixes in /repo is the one of RFC 8017 9.2 *)
 Theorem pkcs1_prefixes_are_rfc8017 :
